@@ -3,7 +3,7 @@
 set -u
 P="$1"; shift
 if ! git -C /repo diff --quiet || [ -n "$(git -C /repo status --porcelain)" ]; then echo "refusing: /repo has uncommitted changes" >&2; exit 3; fi
-git -C /repo apply "$P" || { echo "patch does not apply" >&2; exit 3; }
+git -C /repo apply --recount "$(realpath "$P")" || { echo "patch does not apply" >&2; exit 3; }
 /verif/bin/govc "$@"; rc=$?
 git -C /repo checkout -- . ; git -C /repo clean -fdq
 exit $rc
